@@ -618,7 +618,7 @@ pub fn generate(rng: &mut Rng, cfg: &GenCfg) -> Scenario {
                     let iv = int_vars(&vars);
                     let mv: Vec<(String, VK)> = vars.iter().filter(|(_, k)| matches!(k, VK::MsgI | VK::MsgB)).cloned().collect();
                     let v = fresh("v");
-                    if !mv.is_empty() && rng.chance(1, 2) {
+                    if cfg.confluent && !mv.is_empty() && rng.chance(1, 2) {
                         let (m, k) = rng.pick(&mv).clone();
                         if k == VK::MsgI { body.push(Action::Let(v.clone(), Ex::Mul(Box::new(Ex::Payload(m)), Box::new(Ex::Lit(rng.range(1, 4)))))); vars.push((v, VK::Int)); }
                         else { body.push(Action::Let(v.clone(), Ex::Concat(Box::new(Ex::Payload(m)), Box::new(Ex::Bin(rng.bytes(2)))))); vars.push((v, VK::Bin)); }
